@@ -173,6 +173,18 @@ def d3(cx: Cx, ob: Ob) -> None:
             ob.site(f"{m.where} {m.qualname}", show(t)[:80])
             sc = [x for x in subterms(t) if op(x) == "call" and x[1] == ("func", f"{API}._split")]
             if not sc:
+                sup = ("call", ("builtin", "super"), (), ())
+                if op(t) == "call" and t[1] == ("attr", sup, "from_curie"):
+                    # delegation to the parent's from_curie with every argument forwarded unchanged
+                    pos = [p.name for p in m.params[1:] if p.kind == "pos"]
+                    okf = all(a == ("param", n) for a, n in zip(t[2], pos)) and all(v_ == ("param", k) for k, v_ in t[3] if k is not None)
+                    given = set(pos[: len(t[2])]) | {k for k, _ in t[3]}
+                    needed = {p.name for p in m.params[1:]}
+                    parent = next((b for b in cx.model.bases(ci) if hasattr(b, "methods") and "from_curie" in b.methods), None)
+                    same_sig = parent is not None and [p.name for p in parent.methods["from_curie"].params[1:]] == [p.name for p in m.params[1:]]
+                    if okf and given == needed and same_sig:
+                        ob.site(f"{m.where} {m.qualname}", "delegates to the parent's from_curie")
+                        continue
                 ob.violate(m.qualname, m.where, f"{ci.name}.from_curie does not parse through _split (first-separator rule)", detail="no-split")
                 continue
             c = sc[0]
@@ -217,6 +229,17 @@ def d3(cx: Cx, ob: Ob) -> None:
                 items = _di(s, t) or {}
                 sc = [x for x in subterms(t) if op(x) == "call" and x[1] == ("func", f"{API}._split")]
                 if not sc:
+                    # delegation to ReferenceTuple.from_curie(value) (checked with the constructors above)
+                    RT = ("cls", f"{API}.ReferenceTuple")
+                    viart = [x for x in subterms(t) if op(x) == "call" and x[1] == ("attr", RT, "from_curie") and x[2][:1] == (v,) and (dict(x[3]).get("sep") is None or is_const(dict(x[3]).get("sep"), sep))]
+                    if viart:
+                        R_ = viart[0]
+                        want1 = ("call", ("attr", R_, "_asdict"), (), ())
+                        want2 = {"prefix": ("attr", R_, "prefix"), "identifier": ("attr", R_, "identifier")}
+                        want3 = {"prefix": ("item", R_, ("const", 0)), "identifier": ("item", R_, ("const", 1))}
+                        if t == want1 or items in (want2, want3):
+                            okp = True
+                            continue
                     ob.violate(m.qualname, m.where, "the string pre-validator does not parse through _split", detail="no-split")
                     continue
                 c = sc[0]
@@ -394,6 +417,21 @@ def d6(cx: Cx, ob: Ob) -> None:
         ob.violate(nr.qualname, f"src/curies/{nr.module.relpath}:{nr.node.lineno}", "NamedReference.name is not a required str", detail="name-type")
 
 
+def _check_from_curies(cx: Cx, ob: Ob, T: str, order) -> None:
+    fc = cx.model.functions.get(f"{T}.Triple.from_curies")
+    if fc is None:
+        ob.undecide("Triple.from_curies not found")
+        return
+    fs = cx.summary(fc, ob.id)
+    for t2, _ in fs.returns():
+        kw2 = dict(t2[3]) if op(t2) == "call" else {}
+        names = [p.name for p in fc.params[1:4]]
+        for nm, pn in zip(order, names):
+            v = kw2.get(nm)
+            if not (op(v) == "call" and callee_name(v) == "from_curie" and v[2][:1] == (("param", pn),)):
+                ob.violate(fc.qualname, fc.where, f"Triple.from_curies does not build `{nm}` from its `{pn}` argument", detail=f"from-curies:{nm}")
+
+
 @obligation("C15-D7", "triples AGREE: write_triples columns are (subject, predicate, object).curie; read_triples unpacks the same three in the same order through from_curie; header written once / skipped once; same delimiter", floor=2)
 def d7(cx: Cx, ob: Ob) -> None:
     T = "curies.triples"
@@ -407,6 +445,8 @@ def d7(cx: Cx, ob: Ob) -> None:
         parts = concat_parts(t)
         if parts and len(parts) == 3 and op(parts[0]) == "attr" and parts[0][2] == "prefix" and is_const(parts[1], ":") and op(parts[2]) == "attr" and parts[2][2] == "identifier" and parts[0][1] == parts[2][1]:
             return parts[0][1]
+        if op(t) == "attr" and t[2] == "curie":
+            return t[1]  # the property not inlined (its two definitions differ textually); D3 judges the property itself
         return None
 
     wd = rd = None
@@ -460,7 +500,10 @@ def d7(cx: Cx, ob: Ob) -> None:
         if op(a) == "comp" and len(a[3]) == 1:
             tgt = a[3][0][0]
             elt = a[2]
-            if op(elt) == "call" and op(tgt) == "tuple" and len(tgt[1]) == 3:
+            if op(elt) == "call" and op(tgt) == "tuple" and len(tgt[1]) == 3 and op(elt[1]) == "attr" and elt[1][2] == "from_curies" and len(elt[2]) == 3:
+                got = [tgt[1].index(a_) if a_ in tgt[1] else None for a_ in elt[2]]
+                _check_from_curies(cx, ob, T, order)
+            elif op(elt) == "call" and op(tgt) == "tuple" and len(tgt[1]) == 3:
                 kw = dict(elt[3])
                 got = []
                 for name in order:
@@ -479,16 +522,7 @@ def d7(cx: Cx, ob: Ob) -> None:
             tg = ctx.loops[-1].a[1]
             if op(c[1]) == "attr" and c[1][2] == "from_curies" and len(c[2]) == 3:
                 got = [tg.index(a) if a in tg else None for a in c[2]]
-                fc = cx.model.functions.get(f"{T}.Triple.from_curies")
-                if fc is not None:
-                    fs = cx.summary(fc, ob.id)
-                    for t2, _ in fs.returns():
-                        kw2 = dict(t2[3]) if op(t2) == "call" else {}
-                        names = [p.name for p in fc.params[1:4]]
-                        for nm, pn in zip(order, names):
-                            v = kw2.get(nm)
-                            if not (op(v) == "call" and callee_name(v) == "from_curie" and v[2][:1] == (("param", pn),)):
-                                ob.violate(fc.qualname, fc.where, f"Triple.from_curies does not build `{nm}` from its `{pn}` argument", detail=f"from-curies:{nm}")
+                _check_from_curies(cx, ob, T, order)
             elif op(c[1]) == "cls" and c[1][1].endswith(".Triple"):
                 kw = dict(c[3])
                 got = []
